@@ -6,6 +6,7 @@ pub mod ops;
 pub mod c14;
 pub mod c16;
 pub mod c15;
+pub mod c18;
 
 pub fn run(args: &Args) -> i32 {
     match args.prop.as_str() {
@@ -16,6 +17,7 @@ pub fn run(args: &Args) -> i32 {
         "smoke" => smoke::run(args),
         "C16" => c16::run(args),
         "C15" => c15::run(args),
+        "C18" => c18::run(args),
         other => {
             eprintln!("no driver for property {other}");
             2
